@@ -9,6 +9,7 @@ def configs(tier):
         ('colliding children demoted in one step 2occ x 2slots', dict(family='one_level', fam_kw=dict(occ=2, slots=2, attrs=0, text=False, leaf_form=False, p_form=True, names=COLL))),
         ('separator/keyword names 2occ x 2slots, sorted', dict(family='one_level', fam_kw=dict(occ=2, slots=2, attrs=0, text=False, leaf_form=False, p_form=True, names=COLL2), options=[{'preset': 'serde_xml_rs', 'sort': 'XmlName'}])),
         ('root level 2docs x 2slots', dict(family='root_level', fam_kw=dict(docs=2, slots=2, attrs=1, text=False, pool=2))),
+        ('same PascalCase under different parents (names family, two parents)', dict(family='names', fam_kw=dict(shape='two_parents', names=('Foo', 'foo', 'x')))),
         ('attributes + children collide 2occ', dict(family='one_level', fam_kw=dict(occ=2, slots=1, attrs=1, text=True, leaf_form=False, p_form=False, names=['a', 'foo'], anames=['a', 'foo']))),
     ]
     if tier == 'quick': return q
@@ -22,7 +23,7 @@ def configs(tier):
 def main():
     c = Check('C05')
     c.assumptions = [
-        'HashMap/HashSet are modelled by their contract: lookup by key equality, iteration in an arbitrary order (all k! orders explored, k <= 4 entries per map in these skeletons)',
+        'HashMap/HashSet are modelled by their contract: lookup by key equality, iteration in an arbitrary order: all k! orders for maps with k <= 4 entries; for larger maps a covering family of 2k orders (all rotations and their reversals: every pair of entries in both relative orders)',
         'sort_unstable_by_key: result sorted, order of equal keys arbitrary (all orders explored)',
         'no other source of nondeterminism exists in safe single-threaded code (no addresses, no threads, no shared state in the library): stated, not checked',
     ]
